@@ -76,11 +76,16 @@ def find_error_handler(v):
         if v.choose(2, 'registered:' + c.__name__):
             R[c] = Tok('h_' + c.__name__)
     app = v.obj(APP, _error_handlers=R)
+    R0 = dict(R)
     ex = raised() if v.concrete else ExcVal(raised)
     out = v.call(app, ex)
     v.check('no-exception', out.exc is None)
     if out.exc is not None:
         return
+    # a lookup is a pure read: "the latest registration per class winning" can only hold for later registrations
+    # if resolving an exception never writes into the registry itself (no memoised / phantom entries)
+    R1 = v.get(app, '_error_handlers')
+    v.check('lookup-leaves-the-registry-unchanged', R1 is R and set(R1) == set(R0) and all(R1[k] is R0[k] for k in R0))
     mro = [c for c in raised.__mro__ if c is not object]
     anc = [c for c in mro if c in R]
     v.check('none-iff-no-ancestor-registered', (out.value is None) == (not anc))
